@@ -43,7 +43,7 @@ def e1_bodies(lang, kinds, max_stmts=2):
     out = []
     for n in range(1, max_stmts + 1):
         for combo in itertools.product(opts, repeat=n):
-            if lang == "Python" and all(c in ("comment", "blank") for c in combo):
+            if lang == "Python" and all(c in ("comment", "blank", "ffcomment") for c in combo):
                 continue
             out.append(combo)
     return out
@@ -95,6 +95,8 @@ def skeletons(lang):
         "single": [func("f0", s3())],
         "two": [func("f0", s3()), func("f1", [S("simple"), S("simple")])],
         "func-global-func": [func("f0", s3()), {"k": "global"}, func("f1", [S("simple")])],
+        "formfeed-between": [func("f0", [S("simple"), S("ffcomment"), S("simple")]), {"k": "comment", "v": "ff"}, func("f1", [S("ffstring"), S("simple")]),
+                             {"k": "comment", "v": "ff"}, {"k": "global"}, func("f2", [S("simple")])],
     }
     if lang != "C":
         ms = canon.METHOD_STYLES[lang][0]
@@ -202,7 +204,7 @@ def grammar_ok(spec):
             if s["k"] != "nosemi":
                 continue
             for nxt in body[i + 1:]:
-                if nxt["k"] in ("comment", "blockcomment", "mblockcomment", "blank"):
+                if nxt["k"] in ("comment", "blockcomment", "mblockcomment", "blank", "ffcomment"):
                     continue
                 if nxt["k"] == "block":
                     return False
@@ -215,7 +217,7 @@ def python_ok(spec):
     for slot in walk_slots(spec):
         if slot[0] == "func":
             body = slot[1]["body"]
-            if all(s["k"] in ("comment", "blank") for s in body):
+            if all(s["k"] in ("comment", "blank", "ffcomment") for s in body):
                 return False
     return True
 
@@ -226,7 +228,7 @@ def python_ok(spec):
 
 def single_line_kinds(lang):
     t = canon.statements(lang)
-    return [k for k, v in t.items() if len(v) == 1 and k not in ("comment", "blockcomment", "blank")]
+    return [k for k, v in t.items() if len(v) == 1 and k not in ("comment", "blockcomment", "blank", "ffcomment")]
 
 
 def header_lines(lang, style, method=False):
